@@ -19,6 +19,11 @@ STRENGTHENED = {
     "C18-r2-m1": "same change as C05-r2-m3 (another seeder): reported by C08; 300×200 is beyond what the band arithmetic of C18 can evaluate in 32-bit TLC integers",
     "C18-r2-m2": "domain extended before the first run: sweeps of exactly ±360° from start angles outside 0..360 at d ≥ 61",
     "C18-r2-m3": "detected by C05 after very far contains() probes were added (ellipse/rect/rrect/triangle only)",
+    "C02-r2-m1": "missed at first: C02's own string list had no whitespace-only line; added",
+    "C08-r2-m1": "domain extended before the first run: `StrokeStyle::Dotted` (C02/C04/C07/C08 now draw dotted strokes too)",
+    "C08-r2-m3": "a panic of `size_hint()` after an overshooting `nth`: reported by C11 since panics are verdicts there",
+    "C04-r2-m1": "catalogue extended before the first run: custom fonts with `character_spacing > 0`",
+    "C04-r2-m2": "catalogue extended before the first run: dotted strokes",
     "C17-m1": "domain extended before the first run: long wide lines beyond w·len = 23 170 (the old overflow bound of the library)",
 }
 rows = []
